@@ -202,14 +202,11 @@ Proof.
     repeat match goal with t : side |- _ => destruct t end; reflexivity.
 Qed.
 
-(* a write by the writer goroutine that fails sets it too *)
+(* a write by the writer goroutine or by a reader under destMu that fails sets it too *)
 Lemma failed_write_trig : forall c s d s',
-  wfailed (getd s d) = false -> step c s (IWrite d true) = Some s' -> trig s' = true.
+  (step c s (IWSend d true) = Some s' \/ step c s (IDWrite d true) = Some s') -> trig s' = true.
 Proof.
-  intros c s d s' Hw Hs. destruct_state s. destruct d;
-    cbn [step getd setd set_trig dc ds main cli srv wbroken_c wbroken_s sc_closed cc_closed closing done trig dleak_c dleak_s dleak set_dleak
-         rd wr wfailed werr chan queued rf inflight other] in *;
-    subst; repeat bm; try discriminate Hs; inversion Hs; reflexivity.
+  intros c s d s' [H|H]; eapply ending_label_trig; try exact H; reflexivity.
 Qed.
 
 (* the trigger is never reset *)
